@@ -185,6 +185,16 @@ def check(ctx, model, seed_style, workload="gen", memo=True, poison=None, via=No
             read(A.POISON_TEXT)
         except Exception:  # noqa: BLE001, S110   what it raises is not judged
             pass
+    if poison is None and ctx.rng.random() < 0.1:
+        # history: a read (of another, cartesian text, through some reader class) abandoned at a random line of the library's code comes first
+        from .. import trace  # noqa: PLC0415
+
+        fp = trace.Failpoint.get()
+        other_via = ctx.rng.choice(VIAS)
+        _, n = fp.count(read, A.ABANDONED_TEXT, other_via)
+        status, where = fp.inject(ctx.rng.randint(1, max(1, n)), read, A.ABANDONED_TEXT, other_via)
+        ctx.hit("read-after-an-abandoned-read:" + status)
+        wit["preceded_by_read_abandoned_at"] = [where, other_via]
     via = via or VIAS[_nread[0] % len(VIAS)]
     _nread[0] += 1
     wit["read_through"] = via
